@@ -1,5 +1,5 @@
 """C15 — no path ever produces a safelong outside ±(2^53−1): proof by construction-site induction."""
-from ..facts import ty_adt, tystr, walk_ty, place_local, place_proj, op_place
+from ..facts import ty_adt, tystr, walk_ty, place_local, place_proj, op_place, strip_refs
 from ..cfg import CFG, Tracer
 from .. import inline, dt, consteval
 
@@ -446,6 +446,46 @@ def run(ctx):
         o5 &= ctx.check(len(fs) == 1, "O5", b.loc(), f"{b.id}|fromplain", "FromPlain for SafeLong must delegate to its FromStr", instance="FromPlain -> FromStr")
     o5 &= ctx.check(len(fp) == 1, "O5", "conjure_object", "fromplain-exists", "FromPlain for SafeLong missing", nontrivial=False)
     ctx.obligation("O5 routes use lossless conversions and the checked constructor", o5 and routes >= 8)
+    # ---------------- O7 text routes accept every in-range integer: the parser sees the whole input, and an input is refused only
+    # on the verdict of the i64 parser or of the range check (no pre-filter on length / prefix / shape can be complete:
+    # "-9007199254740991" has 17 characters, "+1" and "0001" are integers)
+    PARSERS = ("parse", "from_str", "from_plain", "deserialize")
+    VIEW = {"as_ref", "deref", "borrow", "as_str", "into", "from"}
+    n7 = 0
+    for b in co.bodies:
+        if ty_adt(b.self_ty) != SL or b.kind != "assoc_fn" or not ((b.trait == "core::str::traits::FromStr" and b.name == "from_str") or (b.trait == "conjure_object::plain::FromPlain" and b.name == "from_plain")):
+            continue
+        n7 += 1
+        eb = inline.expand(co, b, depth=2, pred=lambda cb: cb.d.get("vis") != "pub" and cb.name != "new", lower=True)
+        cfg7 = CFG(eb)
+        vt7 = dt.value_tracer(eb)
+        leaves = [(bb, t) for bb, t in eb.calls() if t["call"]["name"] in PARSERS and t["args"] and "str" in tystr(strip_refs(eb.local_ty(place_local(op_place(t["args"][0]))) or {}) if op_place(t["args"][0]) is not None else {})]
+        verdicts = [(bb, t) for bb, t in eb.calls() if t["call"]["name"] in PARSERS + ("new", "try_from", "try_into")]
+        ctx.check(len(leaves) >= 1, "O7", b.loc(), f"{b.id}|parser", f"{b.id}: no parser call on the text found", nontrivial=False)
+        for lbb, lt in leaves:
+            roots, via = dt.transforming_calls(eb, lt["args"][0], vt7)
+            bad = [c_["call"]["name"] for c_ in via if c_["call"]["name"] not in VIEW]
+            ctx.check(not bad, "O7", eb.loc(lt["ln"]), f"{b.id}|whole-input",
+                      f"{b.id}: the text handed to {lt['call']['name']} is not the input itself (it passes through {bad}): digits cut off or characters altered turn an out-of-range or malformed input into an accepted in-range value, or an in-range one into an error",
+                      instance=f"{b.id}: {lt['call']['name']}(the whole input)")
+        rets7 = dt.return_aliases(eb)
+        errs = [(bb, s_["ln"]) for bb, j, s_ in eb.stmts() if place_local(s_["d"]) in rets7 and not place_proj(s_["d"]) and s_["r"].get("agg") == "adt" and s_["r"].get("variant") == "Err"]
+        errs += [(bb, t["ln"]) for bb, t in eb.calls() if t["call"]["name"] == "from_residual" and place_local(t["dest"]) in rets7]
+        for ebb, eln in errs:
+            foreign = []
+            for sbb, allowed, allv in dt.edge_conditions(cfg7, ebb):
+                atom = dt.switch_atom(eb, sbb)
+                ok_ = False
+                if atom[0] == "discr":
+                    ok_ = any(dt.derives_from_call(eb, {"cp": place_local(atom[1])}, vbb, vt7) for vbb, _ in verdicts)
+                elif atom[0] == "call":
+                    ok_ = any(atom[1] is vt_ for _, vt_ in verdicts)
+                if not ok_:
+                    foreign.append(atom[0] if atom[0] != "call" else atom[1]["call"]["name"])
+            ctx.check(not foreign, "O7", eb.loc(eln), f"{b.id}|rejects-only-on-verdict",
+                      f"{b.id}: an error return depends on a condition other than the parser's / range check's verdict ({foreign}): some in-range integer's text is refused",
+                      instance=f"{b.id}: Err only where the i64 parser or SafeLong::new failed")
+    ctx.floor("O7", "text routes into SafeLong", n7, 2)
     # ---------------- O6 in-range safelong map keys are not refused by Any's key coercion (shared with C13 R13.3)
     from . import c13
     ctx.include(c13, {"R13.3"}, "O6", "an in-range safelong used as a map key inside an Any must be accepted")
